@@ -26,11 +26,20 @@ def _unrolled(func):
 
 def summary_form(func, env0=None):
     """(canonical result, sorted canonical guards) or None if the function cannot be summarised"""
-    sm = summarize(_unrolled(func), env0=env0)
+    fn = _unrolled(func)
+    sm = summarize(fn, env0=env0)
     if sm.unsupported or sm.result is None:
         return None
     try:
-        return canon(sm.result), tuple(sorted((repr(canon(g)) for g in sm.guards)))
+        # what the function does to the objects it was handed belongs to its behaviour: the final term of every parameter that
+        # is not simply the parameter itself (an in-place change, a call that may write it)
+        params = [a.arg for a in fn.args.posonlyargs + fn.args.args + fn.args.kwonlyargs]
+        left = []
+        for p_ in params:
+            v = sm.env.get("@" + p_, sm.env.get(p_))
+            if v is not None and any(isinstance(c_, ast.Call) and (getattr(c_.func, "id", "") or "").startswith("__") for c_ in ast.walk(v)):
+                left.append((p_, repr(canon(v))))
+        return canon(sm.result), tuple(sorted((repr(canon(g)) for g in sm.guards))), tuple(left)
     except Exception:
         return None
 
